@@ -431,9 +431,12 @@ func checkJSONNumber(r *Run, prog *Program, a *Anchors, pfx string) {
 		}
 		return true
 	}
+	lookedUp := map[string]bool{}
 	ps.Model = func(ev *Event) *Sym {
 		if ev.Callee == a.GetValue {
-			return a.lookupModel(&Sym{K: sOpaque, V: ev.Instr.Value(), Str: "value"}, &Sym{K: sConst, C: constant.MakeBool(true)}, nilSym())
+			v := &Sym{K: sOpaque, V: ev.Instr.Value(), Str: "value"}
+			lookedUp[v.Key()] = true
+			return a.lookupModel(v, &Sym{K: sConst, C: constant.MakeBool(true)}, nilSym())
 		}
 		return nil
 	}
@@ -473,6 +476,11 @@ func checkJSONNumber(r *Run, prog *Program, a *Anchors, pfx string) {
 			// transparency: matcher gets Indirect(ValueOf(val))
 			ok := indirect != nil && valueOf != nil && matcherValueKey(sm.St, matcher) == indirect.Res.Key() && indirect.Args[0].Key() == valueOf.Res.Key()
 			r.Check(pfx+".value-handed-over", "Indirect(ValueOf(val))", prog.pos(matcher.Instr.Pos()), ok, "the matcher must be given reflect.Indirect(reflect.ValueOf(value)) so that pointers and interfaces are transparent and named types are compared by kind")
+			if i64 == nil && valueOf != nil {
+				// not a json.Number: what is compared is the looked-up value itself, not something computed from it
+				r.Check(pfx+".value-handed-over", "the-value-itself", prog.pos(matcher.Instr.Pos()), lookedUp[valueOf.Args[0].Key()],
+					"the value handed to the matcher is "+shortKey(valueOf.Args[0])+", not the value the selector denotes (only a json.Number is replaced, by the number it spells)")
+			}
 			if i64 != nil && valueOf != nil {
 				cls := "json-int"
 				want := (&Sym{K: sMkIface, A: &Sym{K: sRes, A: i64.Res, Idx: 0}}).Key()
@@ -510,6 +518,10 @@ func init() {
 		checkElementTransparency(r, prog, a, "c02")
 		r.importing = "C19"
 		checkSelectorString(r, prog, "c19") // "the raw string": a bare literal's text is the dotted join of its parts
+		if g := loadGrammars(r, prog); g != nil {
+			r.importing = "C16"
+			checkLiteralFidelity(r, NewGA(prog, g.Tab)) // the literal compared is the text the quotes enclose, escapes decoded
+		}
 		r.importing = ""
 		r.Technique = "sibling-table extraction by abstract execution per reflect.Kind (kind→coercion, kind→comparator) compared with a spec table transcribed from the statement; constant-argument and single-call checks on the strconv wrappers; conversion census (no integer/float detour); path analysis of coercion-error propagation; event-order analysis of the json.Number narrowing"
 		r.Explain = "For each of the 27 kinds: scalars have a comparator whose asserted type is the coercion's result type and whose accessor is the one of that group (Int/int64, Uint/uint64, Float/float64, float32(Float())/float32, Bool/bool, String/string), non-scalars have none and equality against them returns an error; each coercion is exactly one strconv call with base 0/64 bits (ints), the field's width (floats) or ParseBool, applied to the literal's Raw text unmodified, returning strconv's error unchanged; no conversion between integer and floating types on either side; a failed coercion makes the matcher return (false, error) except the one named ErrSyntax skip for heterogeneous interface slices; json.Number narrows to int64 then float64 before the dispatch; matchers receive Indirect(ValueOf(value)). NOT decided: strconv's own arithmetic; pointer depth > 1 (Indirect is single-level)."
